@@ -61,6 +61,7 @@ type Pool struct {
 	cloneLines  []string
 	cloneShared bool
 	c01         *c01map // bridge to the layout model of the C01/C07 stream
+	shiftResult int     // the amount returned by the last Shift* call
 }
 
 func (p *Pool) knownObject(id acme.EntityID) bool { _, ok := p.byID[id]; return ok }
